@@ -544,6 +544,101 @@ struct Input {
     invalid: Option<&'static str>,
     top_bits: u32,
     edit: EditPlan,
+    extra: ExtraPlan,
+}
+
+/// Choices of the legs added in round 8, drawn from their own rng lane (the builder input itself is unchanged by them).
+#[derive(Clone)]
+struct ExtraPlan {
+    /// target versions (indices into VERSIONS) of the cross-version rebuild from_root_adt(parsed, Some(target))
+    xver_targets: Vec<usize>,
+    /// 0: add_texture name by name, 1: one add_textures call, 2: the first name with add_texture and the rest in one add_textures call
+    texture_entry: u8,
+    /// run the parse -> modify -> save stage through AdtBuilder::from_parsed(..).build() as well
+    edit_from_parsed: bool,
+    root_edits: RootEdits,
+}
+
+/// Edits of the root-level content of the parsed tile, made through the RootAdt::*_mut accessors (the documented load -> edit -> save route).
+#[derive(Clone)]
+struct RootEdits {
+    rename_texture: Option<(u64, String)>,
+    push_texture: Option<String>,
+    push_model: Option<String>,
+    push_wmo: Option<String>,
+    /// 0 nothing, 1 replace one, 2 append one, 3 remove one
+    doodad_mode: u8,
+    doodad_sel: u64,
+    doodad_new: DoodadPlacement,
+    wmop_mode: u8,
+    wmop_sel: u64,
+    wmop_new: WmoPlacement,
+    /// 0 nothing, 1 new levels and liquid type on the first instance of the first wet chunk, 2 the first wet chunk becomes dry
+    water_mode: u8,
+    water_levels: [f32; 2],
+    water_type: u16,
+    mfbo: Option<([i16; 9], [i16; 9])>,
+    mtxf: Option<u32>,
+    mamp: Option<u32>,
+    mtxp: Option<(u32, f32, f32)>,
+}
+
+fn gen_extra(rng: &mut Rng, p: &Protos, spec: &Spec, thorough: bool) -> ExtraPlan {
+    let iso = spec.label.is_some();
+    let xver_targets: Vec<usize> = if iso {
+        (0..VERSIONS.len()).collect()
+    } else {
+        let mut all: Vec<usize> = (0..VERSIONS.len()).collect();
+        rng.shuffle(&mut all);
+        all.truncate(if thorough { 3 } else { 2 });
+        all.sort();
+        all
+    };
+    let texture_entry = rng.below(3) as u8;
+    let edit_from_parsed = iso || rng.bool();
+    let mut doodad_new = p.doodad;
+    doodad_new.name_id = rng.next_u32();
+    doodad_new.unique_id = rng.next_u32();
+    doodad_new.position = f3(rng);
+    doodad_new.rotation = f3(rng);
+    doodad_new.scale = 1 + rng.below(65535) as u16;
+    doodad_new.flags = rng.next_u32() as u16 & !0x40;
+    let mut wmop_new = p.wmo;
+    wmop_new.name_id = rng.next_u32();
+    wmop_new.unique_id = rng.next_u32();
+    wmop_new.position = f3(rng);
+    wmop_new.rotation = f3(rng);
+    wmop_new.extents_min = f3(rng);
+    wmop_new.extents_max = f3(rng);
+    wmop_new.flags = rng.next_u32() as u16 & !0x8;
+    wmop_new.doodad_set = rng.next_u32() as u16;
+    wmop_new.name_set = rng.next_u32() as u16;
+    wmop_new.scale = rng.next_u32() as u16;
+    let mut planes = ([0i16; 9], [0i16; 9]);
+    for k in 0..9 {
+        planes.0[k] = rng.next_u32() as i16;
+        planes.1[k] = rng.next_u32() as i16;
+    }
+    let root_edits = RootEdits {
+        rename_texture: rng.bool().then(|| (rng.next_u64(), gen_names(rng, 1, "tex", "blp").remove(0))),
+        push_texture: rng.chance(1, 3).then(|| gen_names(rng, 1, "tex", "blp").remove(0)),
+        push_model: rng.chance(1, 3).then(|| gen_names(rng, 1, "mdl", "m2").remove(0)),
+        push_wmo: rng.chance(1, 3).then(|| gen_names(rng, 1, "wmo", "wmo").remove(0)),
+        doodad_mode: rng.below(4) as u8,
+        doodad_sel: rng.next_u64(),
+        doodad_new,
+        wmop_mode: rng.below(4) as u8,
+        wmop_sel: rng.next_u64(),
+        wmop_new,
+        water_mode: rng.below(3) as u8,
+        water_levels: [rng.f32_any(), rng.f32_any()],
+        water_type: rng.below(20) as u16,
+        mfbo: rng.bool().then_some(planes),
+        mtxf: rng.bool().then(|| rng.next_u32()),
+        mamp: rng.bool().then(|| rng.next_u32()),
+        mtxp: rng.bool().then(|| (rng.next_u32(), rng.f32_any(), rng.f32_any())),
+    };
+    ExtraPlan { xver_targets, texture_entry, edit_from_parsed, root_edits }
 }
 
 /// Edits applied to the *parsed* tile before one extra rebuild (parse -> modify -> from_root_adt -> to_bytes -> parse): a deterministic
@@ -989,7 +1084,7 @@ fn gen_blend(rng: &mut Rng) -> Blend {
 
 /// The whole builder input of one case: a deterministic function of (point, rng).
 /// point = [version, nmcnk class, names class, placement class, 6 root toggles]
-fn gen_input(rng: &mut Rng, p: &Protos, spec: &Spec, sub_rows: &[Vec<usize>], thorough: bool) -> Input {
+fn gen_input(rng: &mut Rng, rng2: &mut Rng, p: &Protos, spec: &Spec, sub_rows: &[Vec<usize>], thorough: bool) -> Input {
     let (point, invalid) = (&spec.point, spec.invalid);
     let version = VERSIONS[point[0]].0;
     let nmcnk = match point[1] {
@@ -1217,7 +1312,8 @@ fn gen_input(rng: &mut Rng, p: &Protos, spec: &Spec, sub_rows: &[Vec<usize>], th
         .collect();
     let top_drop = if iso_all { 0 } else { (0..TOPS.len()).filter(|_| rng.chance(1, 3)).fold(0u32, |a, b| a | 1 << b) };
     let edit = EditPlan { picks, allowed, top_drop };
-    Input { version, textures, models, wmos, doodads, wmops, mcnks, sub_patterns, mfbo, mh2o, water_chunks, mtxf, mamp, mtxp, blend, invalid, top_bits, edit }
+    let extra = gen_extra(rng2, p, spec, thorough);
+    Input { version, textures, models, wmos, doodads, wmops, mcnks, sub_patterns, mfbo, mh2o, water_chunks, mtxf, mamp, mtxp, blend, invalid, top_bits, edit, extra }
 }
 
 impl Input {
@@ -1234,12 +1330,23 @@ impl Input {
             "subchunk_bits": SUBS, "subchunk_patterns_first": self.sub_patterns.iter().take(20).map(|p| format!("{p:011b}")).collect::<Vec<_>>(),
             "distinct_subchunk_patterns": pats.len(),
             "water_on_chunks": if self.water_chunks.len() > 24 { json!(format!("{} chunks", self.water_chunks.len())) } else { json!(self.water_chunks) },
+            "converted_to": self.extra.xver_targets.iter().map(|&t| VERSIONS[t].1).collect::<Vec<_>>(),
+            "textures_entered_by": (["add_texture", "add_textures", "add_texture+add_textures"][self.extra.texture_entry as usize]),
         })
     }
     fn builder(&self) -> AdtBuilder {
         let mut b = AdtBuilder::new().with_version(self.version);
-        for t in &self.textures {
-            b = b.add_texture(t.clone());
+        match self.extra.texture_entry {
+            1 => b = b.add_textures(self.textures.clone()),
+            2 if !self.textures.is_empty() => {
+                b = b.add_texture(self.textures[0].clone());
+                b = b.add_textures(self.textures[1..].iter().map(|s| s.as_str()));
+            }
+            _ => {
+                for t in &self.textures {
+                    b = b.add_texture(t.clone());
+                }
+            }
         }
         for m in &self.models {
             b = b.add_model(m.clone());
@@ -1615,8 +1722,9 @@ fn edit_stage(c: &mut Case, input: &Input, root0: &RootAdt, ver: &str) {
         if !seen.insert(i) {
             continue;
         }
-        let (old, new) = apply_edit(&mut edited.mcnk_chunks[i], pick, input.edit.allowed);
+        let (old, new) = apply_edit(&mut edited.mcnk_chunks_mut()[i], pick, input.edit.allowed);
         c.count("edit_chunks_edited", 1);
+        c.count("edit_via|mcnk_chunks_mut", 1);
         for (b, t) in SUBS.iter().enumerate() {
             match (old & (1 << b) != 0, new & (1 << b) != 0) {
                 (true, false) => c.count(&format!("edit_subchunk_dropped|{t}"), 1),
@@ -1647,6 +1755,7 @@ fn edit_stage(c: &mut Case, input: &Input, root0: &RootAdt, ver: &str) {
             c.count(&format!("edit_root_optional_dropped|{t}"), 1);
         }
     }
+    apply_root_edits(c, &mut edited, &input.extra.root_edits);
     let want = content_of_root(&edited);
     let xe = match trap(|| BuiltAdt::from_root_adt(edited.clone(), None).to_bytes()) {
         Err(p) => {
@@ -1660,6 +1769,10 @@ fn edit_stage(c: &mut Case, input: &Input, root0: &RootAdt, ver: &str) {
         Ok(Ok(b)) => b,
     };
     c.count("edit_rebuilds", 1);
+    // the documented load -> edit -> save route: AdtBuilder::from_parsed(edited).build() must write the modified tile as well
+    if input.extra.edit_from_parsed {
+        from_parsed_leg(c, &edited, &want, &xe, None, ver, "edit-from-parsed");
+    }
     let we = walk_file(&xe);
     report_walk(c, &we, ver, stage);
     check_name_tables(c, &we, ver, stage, &edited.models, &edited.wmos);
@@ -1682,6 +1795,292 @@ fn edit_stage(c: &mut Case, input: &Input, root0: &RootAdt, ver: &str) {
         let Some(gf) = got.mcnk.get(i) else { break };
         for (field, wv) in wf {
             compare_field(c, format!("edit-content|{field}"), ver, "rebuilt tile != modified parsed tile", field, Some(i), wv, gf.get(field).unwrap_or(&Value::Null));
+        }
+    }
+}
+
+/// Root-level edits of the parsed tile, every one made through the accessor the API offers for it. Only edits that keep the tile a valid
+/// builder input are made (names are renamed / appended, never removed; placements refer to names that exist; doodad scale is not 0).
+fn apply_root_edits(c: &mut Case, r: &mut RootAdt, e: &RootEdits) {
+    if let Some((sel, name)) = &e.rename_texture {
+        let t = r.textures_mut();
+        if !t.is_empty() {
+            let i = (*sel % t.len() as u64) as usize;
+            t[i] = name.clone();
+            c.count("edit_via|textures_mut", 1);
+        }
+    }
+    if let Some(name) = &e.push_texture {
+        r.textures_mut().push(name.clone());
+        c.count("edit_via|textures_mut", 1);
+    }
+    if let Some(name) = &e.push_model {
+        r.models_mut().push(name.clone());
+        c.count("edit_via|models_mut", 1);
+    }
+    if let Some(name) = &e.push_wmo {
+        r.wmos_mut().push(name.clone());
+        c.count("edit_via|wmos_mut", 1);
+    }
+    let nm = r.models.len();
+    let d = r.doodad_placements_mut();
+    match e.doodad_mode {
+        1 | 2 if nm > 0 => {
+            let mut x = e.doodad_new;
+            x.name_id %= nm as u32;
+            if e.doodad_mode == 1 && !d.is_empty() {
+                let i = (e.doodad_sel % d.len() as u64) as usize;
+                d[i] = x;
+            } else {
+                d.push(x);
+            }
+            c.count("edit_via|doodad_placements_mut", 1);
+        }
+        3 if !d.is_empty() => {
+            d.remove((e.doodad_sel % d.len() as u64) as usize);
+            c.count("edit_via|doodad_placements_mut", 1);
+        }
+        _ => {}
+    }
+    let nw = r.wmos.len();
+    let w = r.wmo_placements_mut();
+    match e.wmop_mode {
+        1 | 2 if nw > 0 => {
+            let mut x = e.wmop_new;
+            x.name_id %= nw as u32;
+            if e.wmop_mode == 1 && !w.is_empty() {
+                let i = (e.wmop_sel % w.len() as u64) as usize;
+                w[i] = x;
+            } else {
+                w.push(x);
+            }
+            c.count("edit_via|wmo_placements_mut", 1);
+        }
+        3 if !w.is_empty() => {
+            w.remove((e.wmop_sel % w.len() as u64) as usize);
+            c.count("edit_via|wmo_placements_mut", 1);
+        }
+        _ => {}
+    }
+    if e.water_mode > 0 {
+        if let Some(h) = r.water_data_mut() {
+            if let Some(entry) = h.entries.iter_mut().find(|x| !x.instances.is_empty()) {
+                if e.water_mode == 1 {
+                    let ins = &mut entry.instances[0];
+                    ins.min_height_level = e.water_levels[0];
+                    ins.max_height_level = e.water_levels[1];
+                    ins.liquid_type = e.water_type;
+                } else {
+                    *entry = Mh2oEntry::default();
+                }
+                c.count("edit_via|water_data_mut", 1);
+            }
+        }
+    }
+    if let (Some((hi, lo)), Some(m)) = (&e.mfbo, r.flight_bounds_mut()) {
+        m.max_plane = *hi;
+        m.min_plane = *lo;
+        c.count("edit_via|flight_bounds_mut", 1);
+    }
+    if let (Some(v), Some(m)) = (e.mtxf, r.texture_flags_mut()) {
+        match m.flags.first_mut() {
+            Some(f) => *f = v,
+            None => m.flags.push(v),
+        }
+        c.count("edit_via|texture_flags_mut", 1);
+    }
+    if let (Some(v), Some(m)) = (e.mamp, r.texture_amplifier_mut()) {
+        m.amplifier = v;
+        c.count("edit_via|texture_amplifier_mut", 1);
+    }
+    if let (Some((f, sc, of)), Some(m)) = (e.mtxp, r.texture_params_mut()) {
+        if let Some(x) = m.entries.first_mut() {
+            x.flags = f;
+            x.height_scale = sc;
+            x.height_offset = of;
+            c.count("edit_via|texture_params_mut", 1);
+        }
+    }
+}
+
+/// The other way to serialise a parsed tile: AdtBuilder::from_parsed(root).build()?.to_bytes(). It must do what the statement asks of
+/// re-serialisation: the bytes parse to the content of `root` (`want`), pass the walker, and (where `limit` is given) are not longer than the
+/// file the tile was parsed from. `reference` = to_bytes(from_root_adt(root, None)), which the caller checks in full: when both routes write
+/// the same bytes there is nothing left to examine; identical bytes are tallied, not demanded.
+fn from_parsed_leg(c: &mut Case, root: &RootAdt, want: &Content, reference: &[u8], limit: Option<usize>, ver: &str, stage: &str) {
+    c.count("from_parsed_builds", 1);
+    let bytes = match trap(|| AdtBuilder::from_parsed(root.clone()).build().map(|b| b.to_bytes())) {
+        Err(p) => {
+            c.violate(format!("from-parsed-panic|{}|{ver}", p.sig()), format!("[{stage}] AdtBuilder::from_parsed(..).build()/to_bytes panicked on a parsed tile: {}", p.msg), json!({"stage": stage}));
+            return;
+        }
+        Ok(Err(e)) => {
+            let d = format!("{e:?}");
+            let kind: String = d.chars().take_while(|ch| ch.is_alphanumeric()).collect();
+            c.violate(format!("from-parsed-build-rejected|{kind}|{ver}"), format!("[{stage}] AdtBuilder::from_parsed(..).build() refuses a tile the library parsed from its own output: {e}"), json!({"stage": stage}));
+            return;
+        }
+        Ok(Ok(Err(e))) => {
+            c.violate(format!("from-parsed-serialize-failed|{ver}"), format!("[{stage}] to_bytes failed on AdtBuilder::from_parsed(..).build(): {e}"), json!({"stage": stage}));
+            return;
+        }
+        Ok(Ok(Ok(b))) => b,
+    };
+    if bytes == reference {
+        c.count("from_parsed_bytes_equal_from_root_adt", 1);
+        return;
+    }
+    c.count("from_parsed_bytes_differ_from_from_root_adt", 1);
+    let w = walk_file(&bytes);
+    report_walk(c, &w, ver, stage);
+    check_name_tables(c, &w, ver, stage, &root.models, &root.wmos);
+    if limit.is_some_and(|l| bytes.len() > l) {
+        c.violate(format!("from-parsed-grew|{ver}"), format!("[{stage}] the parsed tile came from {} bytes, AdtBuilder::from_parsed(..).build() serialises it to {}", limit.unwrap_or(0), bytes.len()), json!({"stage": stage}));
+    }
+    let Some(r) = parse_root(c, &bytes, &w, ver, stage, "from-parsed-parse-failed") else { return };
+    let got = content_of_root(&r);
+    for (field, wv) in &want.top {
+        let gv = got.top.get(field).cloned().unwrap_or(Value::Null);
+        if *field == "texture_flags" && wv.is_null() && neutral_mtxf(&gv, root.textures.len()) {
+            c.count("fields_compared", 1);
+            continue;
+        }
+        compare_field(c, format!("from-parsed-content|{field}"), ver, "tile written through AdtBuilder::from_parsed != the parsed tile", field, None, wv, &gv);
+    }
+    if got.mcnk.len() != want.mcnk.len() {
+        c.violate(format!("from-parsed-content|mcnk.count|{ver}"), format!("[{stage}] {} MCNK chunks in the parsed tile, {} after AdtBuilder::from_parsed", want.mcnk.len(), got.mcnk.len()), json!({}));
+    }
+    for (i, wf) in want.mcnk.iter().enumerate() {
+        let Some(gf) = got.mcnk.get(i) else { break };
+        for (field, wv) in wf {
+            compare_field(c, format!("from-parsed-content|{field}"), ver, "tile written through AdtBuilder::from_parsed != the parsed tile", field, Some(i), wv, gf.get(field).unwrap_or(&Value::Null));
+        }
+    }
+}
+
+/// oldest version that can carry a content field (None: every version)
+fn field_min_version(field: &str) -> Option<AdtVersion> {
+    match field {
+        "flight_bounds" => Some(AdtVersion::TBC),
+        "water" | "texture_flags" => Some(AdtVersion::WotLK),
+        "texture_amplifier" | "mcnk.vertex_lighting" => Some(AdtVersion::Cataclysm),
+        "texture_params" | "blend_mesh_headers" | "blend_mesh_bounds" | "blend_mesh_vertices" | "blend_mesh_indices" | "mcnk.blend_batches" => Some(AdtVersion::MoP),
+        _ => None,
+    }
+}
+
+/// (x) conversion: parse -> BuiltAdt::from_root_adt(parsed, Some(target)) -> to_bytes -> walk -> parse, for target versions old and new.
+/// Every produced file must frame and index correctly, and must parse to the content of the source tile in every field the target version
+/// can carry. Fields the target cannot carry are tallied (stripped / kept), nothing is demanded of them. Chunks a conversion adds on its own
+/// with neutral values where the source has none (all-zero MFBO for TBC+, all-zero MTXF for WotLK+) are no content difference.
+fn xver_stage(c: &mut Case, input: &Input, root0: &RootAdt, base: &Content) {
+    for &t in &input.extra.xver_targets {
+        let (target, tname) = VERSIONS[t];
+        let stage = format!("convert-to-{tname}");
+        let to = format!("to-{tname}");
+        let xb = match trap(|| BuiltAdt::from_root_adt(root0.clone(), Some(target)).to_bytes()) {
+            Err(p) => {
+                c.violate(format!("xver-panic|{}|{to}", p.sig()), format!("[{stage}] from_root_adt(.., Some({tname}))/to_bytes panicked: {}", p.msg), json!({}));
+                continue;
+            }
+            Ok(Err(e)) => {
+                c.violate(format!("xver-serialize-failed|{to}"), format!("[{stage}] to_bytes failed on a converted tile: {e}"), json!({}));
+                continue;
+            }
+            Ok(Ok(b)) => b,
+        };
+        c.count("xver_rebuilds", 1);
+        c.count(&format!("xver_rebuilds|{}->{tname}", vname(root0.version)), 1);
+        let w = walk_file(&xb);
+        report_walk(c, &w, tname, &stage);
+        check_name_tables(c, &w, tname, &stage, &root0.models, &root0.wmos);
+        let Some(r) = parse_root(c, &xb, &w, tname, &stage, "xver-parse-failed") else { continue };
+        c.count(&format!("xver_detected|{tname}->{}", vname(r.version)), 1);
+        let got = content_of_root(&r);
+        let cmp = |c: &mut Case, field: &'static str, chunk: Option<usize>, wv: &Value, gv: &Value| {
+            if field_min_version(field).is_some_and(|m| target < m) {
+                if !is_void(wv) {
+                    c.count(if is_void(gv) { "xver_fields_not_carriable_stripped" } else { "xver_fields_not_carriable_kept" }, 1);
+                }
+                return;
+            }
+            if wv.is_null() && field == "texture_flags" && neutral_mtxf(gv, root0.textures.len()) {
+                c.count("fields_compared", 1);
+                return;
+            }
+            if wv.is_null() && field == "flight_bounds" && *gv == json!(([[0i16; 9], [0i16; 9]])) {
+                c.count("xver_default_mfbo_accepted", 1);
+                c.count("fields_compared", 1);
+                return;
+            }
+            c.count("xver_fields_compared", 1);
+            compare_field(c, format!("xver-content|{field}"), &to, "converted tile != source tile", field, chunk, wv, gv);
+        };
+        for (field, wv) in &base.top {
+            cmp(c, *field, None, wv, got.top.get(field).unwrap_or(&Value::Null));
+        }
+        if got.mcnk.len() != base.mcnk.len() {
+            c.violate(format!("xver-content|mcnk.count|{to}"), format!("[{stage}] {} MCNK chunks in the source tile, {} after conversion", base.mcnk.len(), got.mcnk.len()), json!({}));
+        }
+        for (i, wf) in base.mcnk.iter().enumerate() {
+            let Some(gf) = got.mcnk.get(i) else { break };
+            for (field, wv) in wf {
+                cmp(c, *field, Some(i), wv, gf.get(field).unwrap_or(&Value::Null));
+            }
+        }
+    }
+}
+
+/// parse_adt_with_metadata is the other parse entry point: the same tile, and metadata that describes the file the way the independent
+/// walker sees it (root file, the version the tile carries, every top-level chunk with its offset and size).
+fn metadata_stage(c: &mut Case, x0: &[u8], w0: &Walk, root0: &RootAdt, base: &Content) {
+    c.count("parsed_with_metadata", 1);
+    let (adt, md) = match trap(|| wow_adt::parse_adt_with_metadata(&mut Cursor::new(x0))) {
+        Err(p) => {
+            c.violate(format!("with-metadata|panic|{}", p.sig()), format!("parse_adt_with_metadata panicked: {}", p.msg), json!({}));
+            return;
+        }
+        Ok(Err(e)) => {
+            c.violate("with-metadata|fails-where-parse_adt-succeeds".to_string(), format!("parse_adt_with_metadata fails on bytes parse_adt reads: {e}"), json!({}));
+            return;
+        }
+        Ok(Ok(x)) => x,
+    };
+    match adt {
+        ParsedAdt::Root(r) => {
+            let k = content_of_root(&r);
+            if k.top != base.top || k.mcnk != base.mcnk || r.version != root0.version {
+                c.violate("with-metadata|tile-differs-from-parse_adt".to_string(), "parse_adt_with_metadata yields another tile than parse_adt on the same bytes".to_string(), json!({}));
+            }
+            if md.version != r.version {
+                c.violate("with-metadata|version-ne-tile-version".to_string(), format!("metadata.version = {:?}, the tile it came with says {:?}", md.version, r.version), json!({}));
+            }
+        }
+        o => c.violate("with-metadata|not-root".to_string(), format!("parse_adt_with_metadata classifies the tile as {:?}", o.file_type()), json!({})),
+    }
+    if md.file_type != wow_adt::AdtFileType::Root {
+        c.violate("with-metadata|file-type-not-root".to_string(), format!("metadata.file_type = {:?} for a root tile", md.file_type), json!({}));
+    }
+    // the walker's frames are the reference only where its own framing walk tiled the file
+    let tiled = w0.frames.iter().map(|f| 8 + f.size).sum::<usize>() == x0.len();
+    if tiled {
+        if md.chunk_count != w0.frames.len() || md.discovery.total_chunks != w0.frames.len() {
+            c.violate("with-metadata|chunk-count-ne-walker".to_string(), format!("metadata.chunk_count = {}, discovery.total_chunks = {}, the file has {} top-level chunks", md.chunk_count, md.discovery.total_chunks, w0.frames.len()), json!({}));
+        }
+        if md.discovery.file_size != x0.len() as u64 {
+            c.violate("with-metadata|file-size".to_string(), format!("discovery.file_size = {}, the file has {} bytes", md.discovery.file_size, x0.len()), json!({}));
+        }
+        let mut bad = 0;
+        for f in &w0.frames {
+            let id = wow_adt::ChunkId([x0[f.off], x0[f.off + 1], x0[f.off + 2], x0[f.off + 3]]);
+            let found = md.discovery.get_chunks(id).is_some_and(|v| v.iter().any(|l| l.offset == f.off as u64 && l.size as usize == f.size));
+            c.count("metadata_chunk_locations_checked", 1);
+            if !found {
+                bad += 1;
+                if bad == 1 {
+                    c.violate("with-metadata|chunk-location-ne-walker".to_string(), format!("the file has a {} chunk of {} bytes at {}, the discovery record has no such entry", f.magic, f.size, f.off), json!({}));
+                }
+            }
         }
     }
 }
@@ -1786,6 +2185,7 @@ fn check_case(c: &mut Case, input: &Input) {
     }
     c.count("tiles_built", 1);
     c.count(&format!("tiles_built|{ver}"), 1);
+    c.count(["textures_entered_by|add_texture", "textures_entered_by|add_textures", "textures_entered_by|add_texture+add_textures"][input.extra.texture_entry as usize], 1);
     c.count("mcnk_supplied", input.mcnks.len() as u64);
     c.count("names_supplied", (input.textures.len() + input.models.len() + input.wmos.len()) as u64);
     c.count("placements_supplied", (input.doodads.len() + input.wmops.len()) as u64);
@@ -1821,6 +2221,7 @@ fn check_case(c: &mut Case, input: &Input) {
     c.count("bytes_serialised", x0.len() as u64);
     // ---- the same tile saved to disk: into a fresh path, and over an existing, longer file (a tile saved again after it
     // was edited down): the file holds exactly the serialised tile
+    let mut adt_set_root: Option<RootAdt> = None;
     if let Some(dir) = SCRATCH.get() {
         let path = dir.join(format!("c14-{}-tile.adt", std::process::id()));
         for prior in ["fresh-path", "over-a-longer-file", "over-a-shorter-file"] {
@@ -1846,6 +2247,29 @@ fn check_case(c: &mut Case, input: &Input) {
                                             format!("write_to_file ({prior}) left {} bytes on disk, the tile serialises to {} bytes (first difference at {})", on_disk.len(), x0.len(), vh_common::first_diff(&on_disk, &x0)), json!({"prior": prior, "version": format!("{ver}")})),
                     Err(e) => c.violate(format!("write-to-file-failed|{prior}|{ver}"), format!("the written file cannot be read back: {e}"), json!({})),
                 },
+            }
+        }
+        // ---- the saved tile read back the way a map loader does: AdtSet::load_from_path(root file) + merge(). No companion files
+        // (_tex0 / _obj0 / _lod) lie next to it - a tile written by the builder is one self-contained root file
+        // (one case in eight: the route does not depend on what the tile holds beyond what parse_adt reads)
+        if c.idx % 8 == 3 && std::fs::read(&path).is_ok_and(|d| d == x0) {
+            c.count("adt_set_loads", 1);
+            match trap(|| wow_adt::AdtSet::load_from_path(&path).map(|s| (s.texture.is_some() || s.object.is_some() || s.lod.is_some(), s.merge()))) {
+                Err(p) => c.violate(format!("adt-set-load-panic|{}", p.sig()), format!("AdtSet::load_from_path panicked: {}", p.msg), json!({})),
+                Ok(Err(e)) => {
+                    let d = format!("{e:?}");
+                    let kind: String = d.chars().take_while(|ch| ch.is_alphanumeric()).collect();
+                    c.violate(format!("adt-set-load-failed|root-file-without-companions|{kind}"), format!("AdtSet::load_from_path fails on a tile saved with write_to_file (no split files next to it): {e}"), json!({"error": d.chars().take(300).collect::<String>()}));
+                }
+                Ok(Ok((companions, merged))) => {
+                    if companions {
+                        c.violate("adt-set-load|companion-from-nowhere".to_string(), "AdtSet::load_from_path reports a texture / object / lod file where only the root file exists".to_string(), json!({}));
+                    }
+                    match merged {
+                        Ok(r) => adt_set_root = Some(r),
+                        Err(e) => c.violate("adt-set-merge-failed|root-file-without-companions".to_string(), format!("AdtSet::merge fails on a lone root tile: {e}"), json!({})),
+                    }
+                }
             }
         }
         let _ = std::fs::remove_file(&path);
@@ -1933,6 +2357,15 @@ fn check_case(c: &mut Case, input: &Input) {
     }
     let want = content_of_input(input);
     let mut prev = content_of_root(&root0);
+    metadata_stage(c, &x0, &w0, &root0, &prev);
+    if let Some(r) = &adt_set_root {
+        let k = content_of_root(r);
+        if k.top != prev.top || k.mcnk != prev.mcnk || r.version != root0.version {
+            c.violate("adt-set-tile-differs-from-parse_adt".to_string(), "write_to_file -> AdtSet::load_from_path -> merge yields another tile than parse_adt on the serialised bytes".to_string(), json!({}));
+        } else {
+            c.count("adt_set_tiles_equal_to_parsed_tile", 1);
+        }
+    }
     for (field, wv) in &want.top {
         let gv = prev.top.get(field).cloned().unwrap_or(Value::Null);
         // a root chunk the serializer adds on its own with neutral values when none was supplied is not a content difference
@@ -1961,6 +2394,8 @@ fn check_case(c: &mut Case, input: &Input) {
     }
     // ---- (e) parse -> modify -> rebuild
     edit_stage(c, input, &root0, ver);
+    // ---- (x) parse -> from_root_adt(Some(target)) -> to_bytes -> walk -> parse
+    xver_stage(c, input, &root0, &prev);
     // ---- (b) parse -> from_root_adt -> to_bytes -> parse, rounds 1..4
     let mut prev_root = root0;
     let mut prev_bytes = x0;
@@ -1979,6 +2414,9 @@ fn check_case(c: &mut Case, input: &Input) {
             Ok(Ok(b)) => b,
         };
         c.count("rounds", 1);
+        if round == 1 {
+            from_parsed_leg(c, &prev_root, &prev, &xr, Some(prev_bytes.len()), ver, "from-parsed");
+        }
         let wr = walk_file(&xr);
         report_walk(c, &wr, ver, &stage);
         check_name_tables(c, &wr, ver, &stage, &prev_root.models, &prev_root.wmos);
@@ -2122,7 +2560,8 @@ fn main() {
             }
         };
         let mut rng = run.rng(idx, 0);
-        let input = gen_input(&mut rng, p, spec, &sub_rows, thorough);
+        let mut rng2 = run.rng(idx, 1);
+        let input = gen_input(&mut rng, &mut rng2, p, spec, &sub_rows, thorough);
         let ver = vname(input.version);
         let nclass = match input.mcnks.len() {
             0 => "n0".to_string(),
